@@ -109,6 +109,39 @@ theorem wkStep_err (g : Graph) (s : WState) (sid : Nat) (bond : Bond) (rest : Li
               · cases h
             · cases h; rw [hpops]; rfl
 
+theorem wkStep_panic (g : Graph) (s : WState) (sid : Nat) (bond : Bond) (rest : List (Nat × Bond)) (base : Nat)
+    {p : String} {evs : List Event} (h : wkStep g s sid bond rest = .panic p evs) :
+    (protoRun (some (base + s.chain.length)) evs).isSome := by
+  unfold wkStep at h
+  split at h
+  · cases h
+  · split at h
+    · cases h
+    · split at h
+      · cases h; rfl
+      · rename_i chain popcount hu
+        obtain ⟨h1, _, h3⟩ := unwind_spec hu
+        simp only [Nat.sub_zero] at h3
+        have hlen : 1 ≤ chain.length := by
+          cases chain with
+          | nil => exact absurd rfl h1
+          | cons a t => simp
+        have hpops := pops_proto (base := base) h3 hlen
+        simp only at h
+        generalize (if popcount > 0 then [Event.pop popcount] else []) = pops at h hpops
+        split at h
+        · split at h
+          · cases h
+          · cases h; rw [hpops]; rfl
+        · split at h
+          · cases h; rw [hpops]; rfl
+          · split at h
+            · cases h
+            · split at h
+              · cases h
+              · cases h
+            · cases h
+
 /-- the loop of one component: conformant from `base + chain.length`; when it ends normally the
     protocol state is `base +` the final chain length -/
 theorem rootLoop_proto (g : Graph) (base : Nat) : ∀ (fuel : Nat) (s : WState), s.chain ≠ [] →
@@ -126,7 +159,8 @@ theorem rootLoop_proto (g : Graph) (base : Nat) : ∀ (fuel : Nat) (s : WState),
       split
       · rename_i e evs hstep
         exact ⟨wkStep_err g s sid bond rest base hstep, by simp⟩
-      · simp [protoRun]
+      · rename_i p evs hstep
+        exact ⟨wkStep_panic g s sid bond rest base hstep, by simp⟩
       · rename_i s' evs hstep
         obtain ⟨hc', hp⟩ := wkStep_cont g s sid bond rest base hstep
         obtain ⟨ih1, ih2⟩ := rootLoop_proto g base fuel s' hc'
